@@ -294,6 +294,7 @@ func (c *symCtx) depth() int {
 
 // Sym names values and conditions canonically.
 type Sym struct {
+	keepAtom func(*ssa.Function) bool // helpers whose call is kept as one atom although Expand is on
 	w     *World
 	names map[ssa.Value]string // names given by the rule
 	// Expand: static in-module callees whose boolean result is expanded into
@@ -909,6 +910,9 @@ func (s *Sym) expandCall(c *ssa.Call, idx, nres int, ctx *symCtx, d int) *pcF {
 	}
 	if fn == nil || fn.Blocks == nil || fn.Pkg == nil || !strings.HasPrefix(fn.Pkg.Pkg.Path(), modPath) {
 		return nil
+	}
+	if s.keepAtom != nil && s.keepAtom(fn) {
+		return nil // the rule speaks of this helper's verdict as a whole
 	}
 	if fn.Signature.Results().Len() != nres || len(ssaLoops(fn)) > 0 || len(fn.Blocks) > 24 {
 		return nil
